@@ -3,7 +3,7 @@ from . import frames as F
 
 PROP = 'C02'
 PREDICATE = 'C02'
-LEAN_TARGETS = ['LLTD.Props.C02', 'LLTD.Props.C02H']
+LEAN_TARGETS = ['LLTD.Props.C02', 'LLTD.Props.C02H', 'LLTD.Props.C02T']
 VARIANT = 'plain'
 RULE = ('seeded histories (10..60 frames) mixing mostly-valid sessions of 1..4 stations, single-field mutations / truncations of '
         'valid frames and pure noise 1:1:1, MTU in {576, 577, 1500, 9216, 1492, 576+0..39, random} (every residue of the descriptor sizes), bursts of observations filling a QueryResp to the MTU boundary, wired and Wi-Fi attribute sets with names of '
